@@ -451,6 +451,11 @@ def run(ctx):
         check_charges_and_dipole(ctx, "R6", parts=("padding",))
     except AnalysisError as e_:
         ctx.note(f"dipole routine not interpretable ({str(e_)[:100]}); its padding transparency is not decided here")
+    from ..densitymodel import check_density_builders
+    try:
+        check_density_builders(ctx, "R6")
+    except AnalysisError as e_:
+        ctx.note(f"density builders not interpretable ({str(e_)[:120]}); R1 / R3 (shape-based) decide alone")
 
     # ------------------------------------------------------------------ R1
     check_rep_rows(ctx, "R1")
